@@ -20,7 +20,7 @@ import time
 VERIF = os.path.dirname(os.path.dirname(os.path.abspath(__file__)))
 WT = "/tmp/seedverify/wt"
 # patches written before a later `fix:` commit touched the same lines: the commit they apply to
-BASES = {"C08c": "d451ffb"}
+BASES = {"C08c": "d451ffb", "C04l": "47f4ce1"}
 
 
 def sh(cmd, **kw):
